@@ -296,3 +296,37 @@ Proof.
   eapply infix_trans; [apply suffix_infix; exact H1|]. eapply infix_trans; [exact I0|exact Ici].
 Qed.
 End P7.
+
+(* ---- what the verdict depends on: of a signer entry only the name, the signed
+   attributes as they stand in the blob with the digest they carry, and the
+   signature; of the SignedData only the content. Version numbers, the digest
+   and encryption algorithm identifiers, the certificates and the other parsed
+   attribute fields -- everything an attacker can rewrite without touching a
+   signature -- cannot change it. ---- *)
+Definition signed_view (si : signer) : bytes * Z * option (bytes * bytes) * bytes :=
+  (si_issuer si, si_serial si,
+   match si_attrs si with Some a => Some (at_raw a, at_md a) | None => None end, si_sig si).
+
+Lemma verify_signer_view rsa_ok si si' c content :
+  signed_view si = signed_view si' -> verify_signer rsa_ok si c content = verify_signer rsa_ok si' c content.
+Proof.
+  unfold signed_view, verify_signer. intros H. injection H as Hi Hs Ha Hg.
+  destruct (si_attrs si) as [a|], (si_attrs si') as [a'|]; try discriminate; [|reflexivity].
+  injection Ha as Hr Hm. rewrite Hr, Hm, Hg. reflexivity.
+Qed.
+
+Lemma names_view si si' c : signed_view si = signed_view si' -> names si c = names si' c.
+Proof. unfold signed_view, names. intros H. injection H as Hi Hs Ha Hg. rewrite Hi, Hs. reflexivity. Qed.
+
+Theorem verify_depends_only_on rsa_ok p p' c :
+  p_content p = p_content p' -> map signed_view (p_signers p) = map signed_view (p_signers p') ->
+  pkcs7_verify rsa_ok p c = pkcs7_verify rsa_ok p' c.
+Proof.
+  unfold pkcs7_verify. intros Hc. rewrite Hc. generalize (p_content p'). intros content.
+  generalize (p_signers p') as l'. induction (p_signers p) as [|si l IH]; intros [|si' l'] H; try discriminate; [reflexivity|].
+  cbn [map] in H.
+  assert (Hv : signed_view si = signed_view si') by exact (f_equal (fun x => hd (signed_view si) x) H).
+  assert (Hl : map signed_view l = map signed_view l') by exact (f_equal (@tl _) H).
+  cbn [verify_loop].
+  rewrite (names_view si si' c Hv). destruct (names si' c); [apply verify_signer_view; exact Hv | apply IH; exact Hl].
+Qed.
